@@ -34,18 +34,22 @@ TREE_INSERT = ['Writer::insert_items_in_file', 'randomly_split_children', 'Write
                'lemma_ins_item_new', 'lemma_ins_item_same', 'lemma_ins_desc', 'lemma_ins_split']
 TREE_MAKE = ['Writer::make_tree_in_file', 'Writer::fit_in_descendant', 'lemma_mk_item', 'lemma_mk_desc', 'lemma_mk_split', 'lemma_part_step', 'lemma_part_done']
 MAKE_ASSUMED = [('src/writer.rs', None, 'split_imbalance'), ('src/parallel.rs', "impl<'t, D: Distance> ImmutableSubsetLeafs<'t, D>", 'from_item_ids')]
+TREE_DRIVERS = ['Writer::delete_tree', 'Writer::delete_extra_trees', 'Writer::delete_items_from_trees']
+DRIVER_LEMMAS = {'drivers_lib': None, 'writeback_lib': None}
+WB_ASSUMED = [('src/parallel.rs', 'impl TmpNodesReader', 'to_insert'), ('src/parallel.rs', 'impl TmpNodesReader', 'to_delete'),
+              ('src/parallel.rs', "impl<'a, DE: BytesEncode<'a>> TmpNodes<DE>", 'into_bytes_reader')]
 FROZEN_ASSUMED = [('src/parallel.rs', "impl<'t, D: Distance> ImmutableLeafs<'t, D>", 'get'), ('src/parallel.rs', "impl<'t, D: Distance> ImmutableTrees<'t, D>", 'get')]
 
 PROPS = {
     'C01': {
         'verus': {'forest_lib': None,
                   'tree_delete': ['Writer::delete_items_in_file', 'Writer::fit_in_descendant', 'lemma_del_common', 'lemma_del_fit', 'lemma_del_one_side_empty', 'lemma_del_keep'],
-                  'tree_insert': TREE_INSERT, 'tree_make': TREE_MAKE,
+                  'tree_insert': TREE_INSERT, 'tree_make': TREE_MAKE, 'tree_drivers': TREE_DRIVERS, 'drivers_lib': None, 'writeback_lib': None,
                   'leafs_new': ['ImmutableLeafs::new'],
                   'writer_scans': ['Writer::item_indices', 'Writer::reset_and_retrieve_updated_items', 'Writer::clear_db_and_create_a_single_leaf', 'clear_tree_nodes']},
         'assumed_fns': [('src/parallel.rs', "impl<'a, DE: BytesEncode<'a>> TmpNodes<DE>", 'put'), ('src/parallel.rs', "impl<'a, DE: BytesEncode<'a>> TmpNodes<DE>", 'remove'),
                         ('src/parallel.rs', "impl<'a, DE: BytesEncode<'a>> TmpNodes<DE>", 'remap'), ('src/parallel.rs', 'impl TmpNodesReader', 'to_insert'),
-                        ('src/parallel.rs', 'impl TmpNodesReader', 'to_delete')] + FROZEN_ASSUMED + MAKE_ASSUMED,
+                        ('src/parallel.rs', 'impl TmpNodesReader', 'to_delete')] + FROZEN_ASSUMED + MAKE_ASSUMED + WB_ASSUMED,
         'not_decided': [],
     },
     'C03': {
@@ -78,9 +82,9 @@ PROPS = {
     },
     'C10': {
         'verus': {'tree_delete': ['Writer::delete_items_in_file', 'lemma_del_fit', 'lemma_del_one_side_empty', 'lemma_del_keep', 'lemma_del_common'],
-                  'tree_insert': TREE_INSERT, 'tree_make': TREE_MAKE, 'leafs_new': ['ImmutableLeafs::new'],
+                  'tree_insert': TREE_INSERT, 'tree_make': TREE_MAKE, 'tree_drivers': TREE_DRIVERS, 'leafs_new': ['ImmutableLeafs::new'],
                   'writer_scans': ['Writer::item_indices', 'Writer::reset_and_retrieve_updated_items', 'Writer::clear_db_and_create_a_single_leaf', 'clear_tree_nodes', 'NodeId::unwrap_item']},
-        'assumed_fns': FROZEN_ASSUMED + [('src/writer.rs', "impl BuildOption<'_>", 'cancelled')],
+        'assumed_fns': FROZEN_ASSUMED + MAKE_ASSUMED + WB_ASSUMED + [('src/writer.rs', "impl BuildOption<'_>", 'cancelled')],
         'trusted': ['every heed / TmpNodes stand-in call and every poll of cancelled() may return an arbitrary Ok/Err: all fault sequences at all poll points are covered symbolically',
                     'A1: used_tree_node swallows an error raised inside its try_fold (unwrap_or_default); harmless under the monotone callbacks the property quantifies over (DESIGN.md C10); that function is not under contract'],
         'not_decided': ['abort restores the previous contents and a retry succeeds (LMDB, trusted)', 'temporary files and file descriptors are released (OS resources)',
@@ -147,8 +151,8 @@ PROPS = {
     },
     'C15': {
         'verus': {'tree_count': ['Writer::fit_in_descendant', 'target_n_trees'], 'writer_scans': ['Writer::clear_db_and_create_a_single_leaf'],
-                  'tree_insert': TREE_INSERT, 'tree_make': TREE_MAKE, 'tree_delete': ['Writer::delete_items_in_file', 'lemma_del_fit', 'lemma_del_one_side_empty', 'lemma_del_keep', 'lemma_del_common']},
-        'assumed_fns': FROZEN_ASSUMED + MAKE_ASSUMED,
+                  'tree_insert': TREE_INSERT, 'tree_make': TREE_MAKE, 'tree_drivers': TREE_DRIVERS, 'drivers_lib': None, 'tree_delete': ['Writer::delete_items_in_file', 'lemma_del_fit', 'lemma_del_one_side_empty', 'lemma_del_keep', 'lemma_del_common']},
+        'assumed_fns': FROZEN_ASSUMED + MAKE_ASSUMED + WB_ASSUMED,
         'trusted': ['the f64 hysteresis test of target_n_trees is an uninterpreted boolean'],
         'not_decided': ['reader-visible tree count and bucket bound after a whole build: decided by the build-chain units (delete_extra_trees, missing-tree loop, bucket clauses) where claimed'],
     },
